@@ -3,6 +3,8 @@ package gj5s
 import (
 	"fmt"
 	"strings"
+
+	"google.golang.org/protobuf/types/descriptorpb"
 )
 
 type TKind int
@@ -161,6 +163,9 @@ type File struct {
 	// messages and enums; ProtoImports are its import paths.
 	IsProto      bool
 	ProtoImports []string
+	// IsDep: the file is not part of the bundle but an external dependency,
+	// handed to the compiler as a descriptor (plain messages and enums).
+	IsDep bool
 }
 
 func (f *File) Package() string { return strings.ReplaceAll(f.Dir, "/", ".") }
@@ -230,9 +235,56 @@ func Screaming(s string) string { return strings.ToUpper(Snake(LowerFirst(s))) }
 func (p *Program) Bundle() *Bundle {
 	b := NewBundle()
 	for _, f := range p.Files {
+		if f.IsDep {
+			if b.Deps == nil {
+				b.Deps = map[string]*descriptorpb.FileDescriptorProto{}
+			}
+			b.Deps[f.OutPath()] = f.depDescriptor()
+			continue
+		}
 		b.Add(f.Path(), f.Render())
 	}
 	return b
+}
+
+// depDescriptor: the descriptor of a dependency file (strings, int32, refs only).
+func (f *File) depDescriptor() *descriptorpb.FileDescriptorProto {
+	str := func(s string) *string { return &s }
+	i32 := func(i int32) *int32 { return &i }
+	fdp := &descriptorpb.FileDescriptorProto{Name: str(f.OutPath()), Package: str(f.Package()), Syntax: str("proto3"), Dependency: f.ProtoImports}
+	for _, d := range f.Decls {
+		dd := d.(*Decl)
+		if dd.Kind == DEnum {
+			e := &descriptorpb.EnumDescriptorProto{Name: str(dd.Name)}
+			e.Value = append(e.Value, &descriptorpb.EnumValueDescriptorProto{Name: str(Screaming(dd.Name) + "_UNSPECIFIED"), Number: i32(0)})
+			for i, o := range dd.Options {
+				e.Value = append(e.Value, &descriptorpb.EnumValueDescriptorProto{Name: str(Screaming(dd.Name) + "_" + o.Name), Number: i32(int32(i + 1))})
+			}
+			fdp.EnumType = append(fdp.EnumType, e)
+			continue
+		}
+		m := &descriptorpb.DescriptorProto{Name: str(dd.Name)}
+		for i, fd := range dd.Fields {
+			pf := &descriptorpb.FieldDescriptorProto{Name: str(Snake(fd.Name)), JsonName: str(fd.Name), Number: i32(int32(i + 1)), Label: descriptorpb.FieldDescriptorProto_LABEL_OPTIONAL.Enum()}
+			switch fd.T.K {
+			case TString:
+				pf.Type = descriptorpb.FieldDescriptorProto_TYPE_STRING.Enum()
+			case TInt32:
+				pf.Type = descriptorpb.FieldDescriptorProto_TYPE_INT32.Enum()
+			case TBool:
+				pf.Type = descriptorpb.FieldDescriptorProto_TYPE_BOOL.Enum()
+			case TEnum:
+				pf.Type = descriptorpb.FieldDescriptorProto_TYPE_ENUM.Enum()
+				pf.TypeName = str("." + fd.T.Ref.To.FullName())
+			default:
+				pf.Type = descriptorpb.FieldDescriptorProto_TYPE_MESSAGE.Enum()
+				pf.TypeName = str("." + fd.T.Ref.To.FullName())
+			}
+			m.Field = append(m.Field, pf)
+		}
+		fdp.MessageType = append(fdp.MessageType, m)
+	}
+	return fdp
 }
 
 type w struct {
